@@ -251,11 +251,13 @@ def case_linear(rep):
             Aq = np.einsum("ia,jb,kc,ld,abcd->ijkl", Q, Q, Q, Q, Ao)
             for k in (2, 1, 0, float(np.round(rng.uniform(-2, 3), 2))):
                 kw = {} if k == 2 else {"k": k}
-                svk = fem.Hyperelastic(fem.saint_venant_kirchhoff_orthotropic, mu=muo, lmbda=lmo, r1=Q[:, 0], r2=Q[:, 1],
-                                       r3=(None if rep % 2 else Q[:, 2]), **kw)
+                # the third axis given, given as None, or left out (documented default: r1 x r2)
+                r3kw = [{"r3": Q[:, 2]}, {"r3": None}, {}][(rep + int(k == 2)) % 3]
+                svk = fem.Hyperelastic(fem.saint_venant_kirchhoff_orthotropic, mu=muo, lmbda=lmo, r1=Q[:, 0], r2=Q[:, 1], **r3kw, **kw)
+                run.units["linear:orthotropic:r3-%s" % ("given" if r3kw.get("r3") is not None else ("None" if r3kw else "omitted"))] += 1
                 As = svk.hessian([np.eye(3).reshape(3, 3, 1, 1), None])[0][..., 0, 0]
                 kk = k if k in (2, 1, 0) else "real"
-                pair = "LinearElasticOrthotropic~svk_orthotropic(F=I,%s axes,k%s)" % (axes, "=2" if k == 2 else "!=2")
+                pair = "LinearElasticOrthotropic~svk_orthotropic(F=I,%s axes,k%s%s)" % (axes, "=2" if k == 2 else "!=2", "" if (r3kw or k != 2) else ",r3 omitted")
                 unit = "linear:orthotropic:%s:k=%s" % (axes, kk)
                 compare(run, pair, "elasticity", As, Aq, maxabs(Ao), 1e-10 if k == 2 else 1e-5, unit,
                         sample={"pair": "orthotropic " + axes, "k": k, "E": Eo, "nu": nuo, "G": Go})
@@ -337,7 +339,7 @@ def _required():
             "NeoHookeCompressible~jax.total_lagrange(S):stress",
             "OgdenRoxburgh(NeoHooke)~tt.ogden_roxburgh(neo_hooke):stress", "OgdenRoxburgh(NeoHooke)~tt.ogden_roxburgh(neo_hooke):statevars",
             "linear:definition", "linear:tensor-notation", "linear:material-strain", "linear:plane-strain", "linear:plane-stress",
-            "linear:orthotropic", "linear:orthotropic-iso", "linear:orthotropic:definition", "linear:plane-strain:full", "linear:plane-stress:full", "linear:orthotropic:rotated:k=2", "linear:orthotropic:rotated:k=1", "linear:orthotropic:rotated:k=0", "linear:orthotropic:rotated:k=real", "linear:orthotropic:aligned:k=2", "linear:orthotropic:aligned:k=1", "linear:orthotropic:aligned:k=0", "linear:orthotropic:aligned:k=real"]
+            "linear:orthotropic", "linear:orthotropic-iso", "linear:orthotropic:definition", "linear:orthotropic:r3-omitted", "linear:orthotropic:r3-None", "linear:orthotropic:r3-given", "linear:plane-strain:full", "linear:plane-stress:full", "linear:orthotropic:rotated:k=2", "linear:orthotropic:rotated:k=1", "linear:orthotropic:rotated:k=0", "linear:orthotropic:rotated:k=real", "linear:orthotropic:aligned:k=2", "linear:orthotropic:aligned:k=1", "linear:orthotropic:aligned:k=0", "linear:orthotropic:aligned:k=real"]
     reg_mu = ["NeoHooke(mu,bulk)", "NeoHookeCompressible(mu,lmbda)", "LinearElasticLargeStrain(E,nu)", "tt.neo_hooke", "tt.mooney_rivlin", "tt.yeoh",
               "tt.third_order_deformation", "tt.blatz_ko", "tt.van_der_waals", "tt.storakers", "tt.extended_tube[delta=0]", "tt.ogden",
               "tt.arruda_boyce", "tt.alexander", "tt.anssari_benam_bucchi", "tt.lopez_pamies", "tt.saint_venant_kirchhoff", "jax.neo_hooke",
